@@ -17,6 +17,11 @@ class Ctx:
                     'known_findings_printed': [], 'exhaustive': False}
         self.assumptions = []
         self.known = [k for k in common.load_known_findings() if k.get('property') == prop]
+        self.replay = None        # replay mode: list of specs to run instead of the generated ones
+
+    def specs(self, generated):
+        """the specs a check runs: the generated ones, or the replayed ones in replay mode"""
+        return list(self.replay) if self.replay is not None else generated
 
     # ---- proofs
     def proof_gate(self, theorems, extra_targets=()):
@@ -98,6 +103,10 @@ class Ctx:
                 lines.append('VIOLATION property=%s replay=%s no-failing-input-found' % (self.prop, fn))
         for l in lines:
             print(l)
+        if self.replay is not None:
+            print('REPRODUCED' if lines else 'not reproduced: the property holds on the replayed input')
+            sys.stdout.flush()
+            sys.exit(1 if lines else 0)
         common.write_evidence(self.prop, self.tier, self.seed, self.cov, time.time() - self.t0,
                               len(self.violations), self.assumptions)
         sys.stdout.flush()
@@ -111,6 +120,7 @@ def main():
     if '--tier' in args:
         tier = args[args.index('--tier') + 1]
     seed = int(os.environ.get('VERIF_SEED') or 20260926)
+    common.TAG = prop
     ctx = Ctx(prop, tier, seed)
     mod = importlib.import_module('props.' + prop)
     try:
